@@ -6,7 +6,7 @@ TOK = [R('RCP<const Basic>', 'RCPBasic', n='*', why="RCP<const Basic> -> field e
        R('numeric_cast<unsigned>(', 'numeric_cast_unsigned(', n=1, why="template syntax; identity on an in-range size")]
 
 def units(tier):
-    grid = [(5, 3, 2), (5, 4, 2), (7, 4, 2), (5, 4, 3)]
+    grid = [(5, 3, 0), (5, 3, 1), (5, 3, 2), (5, 4, 2), (7, 4, 2), (5, 4, 3)]      # max_deriv 0 and 1 are corner cases of the inner loops
     if tier == 'thorough':
         grid += [(7, 5, 2), (7, 4, 3), (7, 5, 3), (7, 6, 2)]
     ents = []
